@@ -503,6 +503,41 @@ pub fn obs_counts(store: &AnnotationStore) -> Sx {
     .unwrap_or_else(panic_sx)
 }
 
+/// "asking an annotation for its targets", by kind, through the convenience lookups of the API
+/// (all of them walk the target recursively through annotation selectors except datasets() and
+/// annotations_in_targets(One)); handles as sorted lists with duplicates kept
+pub fn obs_forward(store: &AnnotationStore) -> Sx {
+    guard(|| {
+        let mut v = Vec::new();
+        for h in 0..store.annotations_len() {
+            match store.annotation(AnnotationHandle::new(h)) {
+                None => v.push(DEAD),
+                Some(ann) => {
+                    let sorted = |mut x: Vec<usize>| {
+                        x.sort();
+                        nats(x)
+                    };
+                    let pairs = |mut x: Vec<(usize, usize)>| {
+                        x.sort();
+                        l(x.into_iter().map(|(p, q)| l(vec![a(p as i64), a(q as i64)])).collect())
+                    };
+                    v.push(l(vec![
+                        sorted(ann.resources().map(|r| r.handle().as_usize()).collect()),
+                        sorted(ann.resources_as_metadata().map(|r| r.handle().as_usize()).collect()),
+                        sorted(ann.datasets().map(|r| r.handle().as_usize()).collect()),
+                        pairs(ann.data_as_metadata().map(|d| (d.set().handle().as_usize(), d.handle().as_usize())).collect()),
+                        pairs(ann.keys_as_metadata().map(|k| (k.set().handle().as_usize(), k.handle().as_usize())).collect()),
+                        sorted(ann.annotations_in_targets(AnnotationDepth::One).map(|r| r.handle().as_usize()).collect()),
+                        sorted(ann.annotations_in_targets(AnnotationDepth::Max).map(|r| r.handle().as_usize()).collect()),
+                    ]));
+                }
+            }
+        }
+        l(v)
+    })
+    .unwrap_or_else(panic_sx)
+}
+
 pub fn obs_ids(store: &AnnotationStore) -> Sx {
     guard(|| {
         let one = |o: Option<usize>| -> Sx {
